@@ -88,7 +88,7 @@ func (w *groupWorld) get(host, path string) (int64, bool, error) {
 	}
 	_, _ = io.Copy(io.Discard, resp.Body)
 	_ = resp.Body.Close()
-	time.Sleep(1500 * time.Microsecond)
+	time.Sleep(3 * time.Millisecond)
 	if resp.StatusCode == 404 {
 		return 0, true, nil
 	}
